@@ -69,7 +69,7 @@ class Sim:
         self.clock.advance(float(d))
 
     def now(self):
-        return F(self.clock._t)
+        return F(self.clock.peek_next())
 
     def draw_truth(self, st, num=5, den=8):
         """truth value for every guarded transition whose source is active"""
@@ -183,8 +183,67 @@ def standard_ops(sim, ch, tier, *, single_pending=False, delays=False, lo=5, hi=
             d = None
             if delays:
                 d = ops.pick([None, None, 0, 1, 2, 2, 5])
-            sim.queue(ops.pick(names), d)
+            live = sorted({t.event for t in sim.sp.trans if t.event and t.src in set(sim.it.configuration)})
+            if live and ops.flag(3, 4):
+                sim.queue(ops.pick(live), d)
+            else:
+                sim.queue(ops.pick(names), d)
         elif op == 'advance':
             sim.advance(ops.pick([F(1), F(0), TICK, F(2), F(5), F(1) - TICK, F(100)]))
         else:
             yield sim.step(sim.draw_truth(gs, *p_true))
+
+
+# ----------------------------------------------------------------------------- micro-step groups
+
+class Group:
+    __slots__ = ('t', 'micros', 'conf_before', 'conf_after', 'exited', 'entered', 'exp_exited', 'exp_entered',
+                 'exp_conf', 'stab_exited')
+
+
+def groups(sp, r, mem_before):
+    """Split the micro steps of a returned macro step into one group per processed transition (the
+    transition's own micro step + the stabilisation steps that follow) and compute, for each group,
+    what the reference model expects from the configuration the group really started in."""
+    out = []
+    conf = set(r.pre)
+    mem = {k: list(v) for k, v in mem_before.items()}
+    cur = None
+    for m in r.ms.steps:
+        if m.transition is not None or cur is None:
+            cur = Group()
+            cur.t = sp.trans[tid(m.transition)] if m.transition is not None else None
+            cur.micros = []
+            cur.conf_before = set(conf)
+            cur.exited = []
+            cur.entered = []
+            cur.stab_exited = []
+            out.append(cur)
+        cur.micros.append(m)
+        if m.transition is not None or not cur.micros[:-1] and cur.t is None and False:
+            pass
+        (cur.exited if m.transition is not None else cur.stab_exited).extend(m.exited_states)
+        cur.entered.extend(m.entered_states)
+        conf.difference_update(m.exited_states)
+        conf.update(m.entered_states)
+        cur.conf_after = set(conf)
+    # expectations (each from the configuration the group really started in; memory follows the real exits)
+    for g in out:
+        c = set(g.conf_before)
+        if g.t is None:
+            if r.init:
+                g.exp_conf, g.exp_entered = ref.initial_conf(sp, mem)
+                g.exp_exited = set()
+            else:       # event consumed by a transition-less step
+                g.exp_conf, g.exp_entered, g.exp_exited = c, [], set()
+        else:
+            g.exp_exited, g.exp_entered = ref.apply(sp, c, mem, g.t)
+            g.exp_conf = c
+        # memory for the next group follows what really happened
+        mem2 = mem
+        cc = set(g.conf_before)
+        for m in g.micros:
+            ref.record_memory(sp, cc, [x for x in m.exited_states if x in sp.states], mem2)
+            cc.difference_update(m.exited_states)
+            cc.update(m.entered_states)
+    return out
